@@ -84,17 +84,17 @@ theorem ed25519Label_tie : Extracted.ed25519LabelBytes = SpecConsts.sshEd25519La
     wrapping AND on the unwrapping side, with the primitive it is handed to: per source
     file, which primitive receives which label (the enclosing function is not pinned, so
     moving a derivation into a helper of the same file is not a change). -/
-theorem labelSites_tie : (Extracted.labelSites.map (fun s => (s.1, s.2.2.1, s.2.2.2))).eraseDups = [
+def expectedLabelUses : List (String × String × String) := [
     ("agessh/agessh.go", "hkdf.New", SpecConsts.sshEd25519Label),
     ("agessh/agessh.go", "rsa.DecryptOAEP", SpecConsts.sshRsaLabel),
     ("agessh/agessh.go", "rsa.EncryptOAEP", SpecConsts.sshRsaLabel),
     ("scrypt.go", "append", SpecConsts.scryptLabel),
-    ("x25519.go", "hkdf.New", SpecConsts.x25519Label)] := by decide
+    ("x25519.go", "hkdf.New", SpecConsts.x25519Label)]
 
-/-- every label is used on both sides (at least twice) -/
-theorem labelSites_both_sides :
-    (Extracted.labelSites.map (·.2.2.2)).eraseDups.all
-      (fun l => decide (2 ≤ (Extracted.labelSites.filter (fun s => s.2.2.2 == l)).length)) = true := by decide
+/-- as SETS: every use found in the source is an expected one, and every expected one occurs -/
+theorem labelSites_tie :
+    (Extracted.labelSites.map (fun s => (s.1, s.2.2.1, s.2.2.2))).all (fun u => expectedLabelUses.contains u) = true ∧
+    expectedLabelUses.all (fun u => (Extracted.labelSites.map (fun s => (s.1, s.2.2.1, s.2.2.2))).contains u) = true := by decide
 
 theorem stanzaTypes_tie :
     [Extracted.stanzaTypeX25519Bytes, Extracted.stanzaTypeScryptBytes, Extracted.stanzaTypeSshRsaBytes,
